@@ -454,6 +454,7 @@ void drive_life( Bed& b, unsigned long ops )
 {
     verif::monitor& m = verif::mon( "C29" );
     verif::ctx_prop( "C29" );
+    b.life.track_changes = true;
 
     unsigned conns_on_object = 0;
 
@@ -496,6 +497,22 @@ void drive_life( Bed& b, unsigned long ops )
 
         b.run_events( 1 + b.rng.below( 4 ) );
 
+        // event producing PDUs, to be put in front of something in ONE connection event
+        auto queue_event_pdus = [&]( unsigned n ) {
+            for ( unsigned i = 0; i < n; ++i )
+            {
+                switch ( b.rng.below( b.info.phy2m ? 6 : 5 ) )
+                {
+                case 0: b.cen.queue_control( bytes{ LL_REJECT_IND, static_cast< std::uint8_t >( 0x30 + i ) } ); break;
+                case 1: b.cen.queue_control( bytes{ LL_REJECT_EXT_IND, 0x16, static_cast< std::uint8_t >( 0x30 + i ) } ); break;
+                case 2: b.cen.queue_control( bytes{ LL_UNKNOWN_RSP, static_cast< std::uint8_t >( 0x14 + i ) } ); break;
+                case 3: b.cen.queue_control( bytes{ LL_FEATURE_REQ, 0xff, 0, 0, 0, 0, 0, 0, 0 } ); break;
+                case 4: b.cen.queue_control( bytes{ LL_VERSION_IND, 0x0a, 0x59, 0x00, static_cast< std::uint8_t >( i ), 0x00 } ); break;
+                default: b.cen.queue_control( bytes{ LL_PHY_UPDATE_IND, 0, 0, 0, 0 } ); break;
+                }
+            }
+        };
+
         // some life in the connection: changes, lost events
         const unsigned life_rounds = b.rng.below( 4 );
         for ( unsigned i = 0; i < life_rounds && b.connected(); ++i )
@@ -509,9 +526,22 @@ void drive_life( Bed& b, unsigned long ops )
             {
                 bytes u( 12, 0 ); u[ 0 ] = LL_CONNECTION_UPDATE_IND; u[ 1 ] = 1; put16( u, 2, 0 ); put16( u, 4, cp.interval ); put16( u, 6, 0 ); put16( u, 8, cp.timeout );
                 put16( u, 10, static_cast< std::uint16_t >( b.ll->connection_event_counter() + 6 ) );
+                const std::uint16_t instant = static_cast< std::uint16_t >( b.ll->connection_event_counter() + 6 );
                 b.cen.queue_control( u );
                 m.cls( "life:connection_update" );
+                b.instant_pending = true;
+                // now and then the event that reaches the instant carries a burst of event producing PDUs
+                if ( b.rng.below( 2 ) )
+                {
+                    for ( unsigned k = 0; k < 8 && b.connected() && static_cast< std::uint16_t >( b.ll->connection_event_counter() + 1 ) != instant; ++k )
+                        b.run_once();
+                    const unsigned nb = b.rng.below( 9 );
+                    queue_event_pdus( nb );
+                    b.cen.plan.burst = nb ? nb : 1;
+                    b.cen.plan.max_exchanges = 16;
+                }
                 b.run_events( 9 );
+                b.instant_pending = false;
                 break;
             }
             default: b.cen.queue_control( bytes{ LL_PING_REQ } ); break;
@@ -522,6 +552,50 @@ void drive_life( Bed& b, unsigned long ops )
         if ( !b.connected() ) continue;
         b.settle( 30 );
         if ( !b.connected() ) continue;
+
+        // changes of the connection inside such bursts: encryption switched on by a completed start procedure, switched
+        // off by LL_PAUSE_ENC_REQ, each to be reported by exactly one ll_connection_changed
+        if ( b.info.security && Bed::keys() && !Bed::keys()->keys.empty() && b.rng.below( 5 ) < 2 )
+        {
+            m.cls( "scenario:encryption_change_in_burst" );
+            const unsigned rounds = 1 + b.rng.below( 2 );
+
+            for ( unsigned r = 0; r < rounds && b.connected(); ++r )
+            {
+                // start procedure up to the peripheral's LL_START_ENC_REQ
+                const auto& k = Bed::keys()->keys[ b.rng.below( static_cast< std::uint32_t >( Bed::keys()->keys.size() ) ) ];
+                bytes req( 23 );
+                for ( auto& x : req ) x = b.rng.byte();
+                req[ 0 ] = LL_ENC_REQ;
+                for ( unsigned i = 0; i < 8; ++i ) req[ 1 + i ] = static_cast< std::uint8_t >( k.rand >> ( 8 * i ) );
+                put16( req, 9, k.ediv );
+                b.cen.queue_control( req );
+                if ( !b.settle( 30 ) ) break;
+
+                // burst + LL_START_ENC_RSP in one connection event
+                const unsigned n_on = b.rng.below( 9 );
+                queue_event_pdus( n_on );
+                b.cen.queue_control( bytes{ LL_START_ENC_RSP } );
+                b.cen.plan.burst = n_on + 1;
+                b.cen.plan.max_exchanges = 16;
+                b.run_once();
+                if ( !b.settle( 30 ) ) break;
+
+                // burst + LL_PAUSE_ENC_REQ in one connection event, then the LL_PAUSE_ENC_RSP of the central
+                const unsigned n_off = b.rng.below( 9 );
+                queue_event_pdus( n_off );
+                b.cen.queue_control( bytes{ LL_PAUSE_ENC_REQ } );
+                b.cen.plan.burst = n_off + 1;
+                b.cen.plan.max_exchanges = 16;
+                b.run_once();
+                if ( !b.settle( 30 ) ) break;
+
+                b.cen.queue_control( bytes{ LL_PAUSE_ENC_RSP } );
+                if ( !b.settle( 30 ) ) break;
+            }
+
+            if ( !b.connected() ) continue;
+        }
 
         // the burst: event producing PDUs in ONE connection event immediately before the terminating one
         const unsigned burst = b.rng.below( 9 );        // 0..8
@@ -820,6 +894,7 @@ void drive_enc( Bed& b, unsigned depth, unsigned part, unsigned parts, unsigned 
 
     enc_driver< Bed > d( b );
     b.enc_check_callbacks = true;
+    b.life.track_changes = true;
 
     // exhaustive part: all sequences of length 1..depth, this process takes those whose index % parts == part
     unsigned long index = 0, done = 0;
